@@ -756,7 +756,43 @@ class G:
                          ("aug", i, "-", ("lit", INT, 1))])
         return [pre, ("while", ("cmp", BOOL, ">", ("var", INT, i), ("lit", INT, 0)), body + [dec])]
 
+    def tuple_match_head(self, sc):
+        """subject (e1, e2[, e3]) and 1-3 distinct tuple patterns of literals and `_` (names inside tuple patterns are not bound
+        by the checker and are left out); about half of the subject elements are literals the patterns like to repeat, so that
+        second and third arms are reached"""
+        ts = [self.pick([INT, INT, STR] if self.p["strings"] else [INT]) for _ in range(self.pick([2, 2, 3]))]
+        known, elems = [], []
+        for t in ts:
+            if self.chance(50):
+                l = self.lit(t)
+                known.append(l[2])
+                elems.append(l)
+            else:
+                known.append(None)
+                elems.append(self.expr(t, sc, 1, True))
+        pats, seen = [], set()
+        for _ in range(self.int(1, 3)):
+            pe = []
+            for t, kv in zip(ts, known):
+                if self.chance(35):
+                    pe.append(("wild",))
+                elif kv is not None and self.chance(60):
+                    pe.append(("lit", t, kv))
+                else:
+                    pe.append(("lit", t, self.lit(t)[2]))
+            if repr(pe) in seen or all(q[0] == "wild" for q in pe):
+                continue
+            seen.add(repr(pe))
+            pats.append(("ptup", pe))
+        return ("tup", None, elems), pats
+
     def s_match(self, sc, ctx):
+        if self.p.get("tuple_patterns", True) and self.chance(30):
+            subj, pats = self.tuple_match_head(sc)
+            arms = [(pat, self.block(Scope(sc), ctx.deeper(), 1, 2)) for pat in pats]
+            if self.chance(60) or not arms:
+                arms.append((self.pick([("wild",), ("ptup", [("wild",)] * len(subj[2]))]), self.block(Scope(sc), ctx.deeper(), 1, 2)))
+            return [("match", subj, arms)]
         t = self.pick([INT, INT, STR] if self.p["strings"] else [INT])
         subj = self.expr(t, sc, 1, True)
         arms = []
@@ -1124,6 +1160,13 @@ class G:
             b2 = self.block(s2, ctx.deeper(), 0, 1)
             t2 = self.gen_tail(ret, s2, ctx.deeper(), depth - 1)
             return ("iftail", c, (b1, t1), (b2, t2))
+        if k == "matchtail" and self.p.get("tuple_patterns", True) and self.chance(30):
+            subj, pats = self.tuple_match_head(sc)
+            arms = []
+            for pat in pats + [("wild",)]:
+                s1 = Scope(sc)
+                arms.append((pat, (self.block(s1, ctx.deeper(), 0, 1), self.gen_tail(ret, s1, ctx.deeper(), 0))))
+            return ("matchtail", subj, arms)
         if k == "matchtail":
             t = INT
             subj = self.expr(t, sc, 1, True)
